@@ -140,8 +140,9 @@ Print Assumptions ref_refines_flat.
    every subject of bytes and every start position: one run of gopher-lua's VM on the compiled
    program and lstrlib's matcher on the text give the same outcome, the same end position and the
    same capture extents (slot layout 2k+2/2k+3, exact slice length).  Out-of-fuel of the model is
-   excluded by hypothesis (vm_fuel_enough is not proved); the parser is related to `prints` by
-   the correspondence runs and by goparse_roundtrip_small, not by a general theorem. *)
+   excluded by hypothesis here and discharged by vm_fuel_enough in vm_refines_ref_total; the
+   parser is related to `prints` by the correspondence runs and by goparse_roundtrip_small
+   (bounded), not by a general theorem. *)
 Theorem vm_refines_ref :
   forall (p : seqpat) (text src : bytes) (sp0 : Z) (fuel : nat),
     prints (tail_text (must_tail p)) (flatten_seq (patterns p)) text ->
@@ -180,3 +181,28 @@ Theorem goparse_roundtrip_small :
   exists pb, print_seq p = Some pb /\ goParse pb = ParseOk p.
 Proof. exact goparse_roundtrip_small_lemma. Qed.
 Print Assumptions goparse_roundtrip_small.
+
+(* vm_fuel_enough: the fuel pm.Find's model gives every VM run suffices: no run on a compiled
+   pattern ends out of fuel (depth <= instructions ahead + 3 per subject byte ahead) *)
+Theorem vm_fuel_enough :
+  forall (p : seqpat) (src : bytes) (sp0 : Z),
+    0 <= sp0 <= len src ->
+    1 + Z.of_nat (vm_fuel src (goCompile p)) <= maxRecursionLevel ->
+    goVM src (goCompile p) (vm_fuel src (goCompile p)) 0 sp0 <> VFuel.
+Proof. exact goVM_terminates. Qed.
+Print Assumptions vm_fuel_enough.
+
+(* the refinement without the out-of-fuel hypothesis, at the fuel the model of pm.Find uses *)
+Theorem vm_refines_ref_total :
+  forall (p : seqpat) (pb src : bytes) (sp0 : Z),
+    seq_okb p = true -> print_seq p = Some pb ->
+    is_bytes src = true -> 0 <= sp0 <= len src ->
+    1 + Z.of_nat (vm_fuel src (goCompile p)) <= maxRecursionLevel ->
+    vm_ref_rel src sp0 (ncaps_seq (patterns p))
+               (goVM src (goCompile p) (vm_fuel src (goCompile p)) 0 sp0)
+               (ref_match pb src sp0 (len (head_text (must_head p)))).
+Proof.
+  intros p pb src sp0 H1 H2 H3 H4 H5.
+  exact (PrintFacts.vm_refines_ref_checked p pb src sp0 _ H1 H2 H3 H4 H5 (goVM_terminates p src sp0 H4 H5)).
+Qed.
+Print Assumptions vm_refines_ref_total.
